@@ -21,7 +21,7 @@ B_PARSED = 96         # parsed_ops / psyn / reser: objects + serialisations + Di
 B_DUMP = 640          # dec / decs / extra_parse / *_dec: the harness dumps one String token per parsed element
 B_TEXT = 16           # text and fixed-size parsers: nothing but copies of the input
 DUMP_OPS = {"dec", "decs", "extra_parse", "subfield_dec", "subfield_decs", "varint_dec", "addr_dec", "sk_dec", "pk_dec"}
-PARSED_OPS = {"parsed_ops", "psyn", "reser"}
+PARSED_OPS = {"parsed_ops", "psyn", "reser", "parsed_scan"}
 
 HUGE = [2 ** 19, 2 ** 19 + 1, 2 ** 20, 2 ** 20 + 1, 2 ** 22 + 1, 2 ** 25, 2 ** 25 + 1, 2 ** 32, 2 ** 40, 2 ** 63, 2 ** 64 - 1]
 HUGE_MAIN = [2 ** 25, 2 ** 32, 2 ** 63, 2 ** 64 - 1]
@@ -207,7 +207,11 @@ class C04(Check):
             "(gen_codec.mutations_at_every_offset, multi_mutation) through parsed_ops; (6) every text / byte parser entry point (address "
             "from_str / from_hex / from_bytes / consensus, AddressType, secret / public keys, amounts of both types in 5 denominations + suffix, "
             "Denomination, Hash / Hash8 / PaymentId from_hex, base58, keccak / hash-to-scalar, extra / sub-field, varint) on valid samples, "
-            "10^5-character strings, non-ASCII UTF-8, embedded NULs, random strings.  non-trivial = distinct case line.  Oracle: never "
+            "10^5-character strings, non-ASCII UTF-8, embedded NULs, random strings; (7) parsed_scan: Transaction / TransactionPrefix "
+            "check_outputs and SubKeyChecker::new + check_outputs_with with empty (a..a, 0..0), REVERSED (3..1 x 5..2, MAX..0), "
+            "u32::MAX-1.. and ordinary (up to 64 x 64) index ranges on corpus / generated / mutated objects and on transactions whose "
+            "outputs belong to the harness' view pair (plain and view-tagged keys, v1 / Null / Full / Bulletproof2 / Clsag / "
+            "BulletproofPlus with valid, off-curve and non-canonical commitments).  non-trivial = distinct case line.  Oracle: never "
             "PANIC/ABORT/TIMEOUT, peak heap <= A + B(op)*|input|")
     level_note = ("proof part: Props/C04.v about the Gallina models (no Panic, no fuel, loop bounds, allocation requests); "
                   "PARTIAL: real unwinding, aborts, stack depth, wall clock and heap peak are OBSERVED on the stream above, not proved; "
@@ -419,6 +423,8 @@ class C04(Check):
 
         # ---- (6) text and byte parsers
         self.gen_text(add, rng, thorough)
+        # ---- (7) output scanning with arbitrary index ranges
+        self.gen_scan(add, seeds, rng, thorough)
         # the expensive cases (megabyte inputs, synthesised runs) are spread evenly over the stream so that the framework's
         # contiguous shards each get a few of them (per-shard wall-clock limit = impl_timeout)
         heavy = [c for c in cs if len(c.line) > 150000 or c.line.startswith("psyn ")]
@@ -430,6 +436,68 @@ class C04(Check):
                 out.append(heavy.pop())
             out.append(c)
         return out + heavy
+
+    def gen_scan(self, add, seeds, rng, thorough):
+        """parsed_scan: Transaction::check_outputs / TransactionPrefix::check_outputs / SubKeyChecker::new + check_outputs_with
+        on whatever parses, with empty, reversed, maximal and ordinary sub-address index ranges.  Some transactions are
+        built so that outputs ARE found by the harness' fixed view pair (view scalar 1, spend key = base point)."""
+        import props.edref as E
+        sz = self.sz
+        M = 2 ** 32 - 1
+        ranges = [(0, 0, 0, 0), (0, 1, 0, 1), (0, 2, 0, 3), (5, 5, 7, 7), (1, 1, 0, 4), (0, 4, 2, 2),          # a..a
+                  (3, 1, 5, 2), (3, 1, 0, 2), (0, 2, 5, 2), (1, 0, 1, 0), (M, 0, M, 0), (M - 1, 0, 0, 1),       # reversed
+                  (M - 1, M, M - 1, M), (M - 1, M, 0, 2), (0, 2, M - 1, M), (M, M, M, M), (M - 1, M - 1, 0, 1),   # near u32::MAX
+                  (0, 1, 0, 64), (7, 9, 100, 110)]
+        owned = []
+        S = E.B                                            # spend public key of the harness' view pair
+        R = E.mul(7, E.B)
+        Dv = E.compress(E.mul(8, R))                       # 8 * a * R with a = 1
+        def out_key(i, tagged):
+            P_i = E.add(E.mul(E.hash_to_scalar(Dv + leb(i)), E.B), S)
+            if tagged:
+                return b"\x03" + E.compress(P_i) + E.keccak256(b"view_tag" + Dv + leb(i))[:1]
+            return b"\x02" + E.compress(P_i)
+        extra = b"\x01" + E.compress(R)
+        for n_out, tagged in ((1, False), (3, False), (2, True)):
+            outs = b"".join(b"\x05" + out_key(i, tagged) for i in range(n_out))
+            pre = b"\x01\xff\x09" + leb(n_out) + outs + leb(len(extra)) + extra
+            owned.append(("tx", b"\x01\x00" + pre))                                   # version 1, Gen input: no signatures
+            owned.append(("tx", b"\x02\x00" + pre + b"\x00"))                         # RingCT type Null
+            for t in (4, 5, 6):                                                          # found output + RingCT base: the opening path
+                for pk in (E.compress(E.B), b"\x02" + b"\x00" * 31, b"\xff" * 32):
+                    base = bytes([t]) + b"\x00" + b"\x11" * (8 * n_out) + pk * n_out
+                    if t == 6:
+                        pr = b"\x00" + b"\x22" * 96 + b"\x33" * 32
+                    else:
+                        pr = b"\x00" + b"\x22" * 96 + b"\x33" * 32
+                    owned.append(("tx", b"\x02\x00" + pre + base + pr))
+            for pk in (E.compress(E.B), b"\xff" * 32):                                   # type Full (64-byte ecdh, MLSAG, range sigs)
+                base = b"\x01\x00" + b"\x11" * (64 * n_out) + pk * n_out
+                pr = b"\x44" * (6176 * n_out) + b"\x22" * (1 * 2 * 32 + 32)
+                owned.append(("tx", b"\x02\x00" + pre + base + pr))
+        self.n_owned = len(owned)
+        hdr = b"\x01\x01\x01" + b"\x11" * 32 + b"\x00" * 4
+        for T, b in owned:
+            for r in ranges:
+                add("parsed_scan %s %s %s %d %d %d %d" % ((sz, T, hx(b)) + r), "scan-owned")
+            add("parsed_scan %s block %s 0 2 0 2" % (sz, hx(hdr + b + b"\x00")), "scan-owned")
+            add("parsed_scan %s prefix %s 0 2 0 2" % (sz, hx(b)), "scan-owned")
+            add("parsed_ops %s %s %s" % (sz, T, hx(b)), "scan-owned")
+        add("parsed_scan %s tx %s 0 64 0 64" % (sz, hx(owned[1][1])), "scan-owned")
+        # corpus / generated objects and their mutations with every range
+        k = 0
+        for T, b, org in seeds:
+            if len(b) > 4000:
+                continue
+            for r in (ranges if org == "corpus" else rng.sample(ranges, 4)):
+                add("parsed_scan %s %s %s %d %d %d %d" % ((sz, T, hx(b)) + r), "scan-seed")
+            for _ in range(3 if not thorough else 30):
+                m = G.multi_mutation(b, rng, rng.randint(1, 3))
+                add("parsed_scan %s %s %s %d %d %d %d" % ((sz, T, hx(m)) + rng.choice(ranges)), "scan-mut")
+        for T, b in owned:
+            for _ in range(6 if not thorough else 60):
+                m = G.multi_mutation(b, rng, rng.randint(1, 2))
+                add("parsed_scan %s %s %s %d %d %d %d" % ((sz, T, hx(m)) + rng.choice(ranges)), "scan-mut")
 
     def gen_text(self, add, rng, thorough):
         L = 100000
@@ -555,7 +623,7 @@ class C04(Check):
             k = 2 if a[1].startswith("@") else 1
             ln = lambda h: 0 if h == "-" else len(h) // 2
             return ln(a[k + 1]) + ln(a[k + 2]) * int(a[k + 3]) + ln(a[k + 4])
-        h = a[-1]
+        h = a[-5] if a[0] == "parsed_scan" else a[-1]
         return 0 if h == "-" else len(h) // 2
 
     @staticmethod
@@ -606,7 +674,7 @@ class C04(Check):
     def evalA_ok(self, line):
         a = line.split(" ")
         # keys / addresses cost seconds per curve operation under vm_compute; keep the kernel cross-check to the codec and text ops
-        return a[0] in ("parsed_ops", "reser", "decs", "hexparse", "denom", "amt_parse", "varint_dec", "atype") and len(line) < 1500
+        return a[0] in ("parsed_ops", "parsed_scan", "reser", "decs", "hexparse", "denom", "amt_parse", "varint_dec", "atype") and len(line) < 1500
 
     def extra_coverage(self, cases, impl, model):
         out = {"constants": {"A_bytes": A_CONST, "A_text_ops_bytes": 1 * MiB, "B_parsed_ops_reser": B_PARSED, "B_dump_ops": B_DUMP, "B_text_ops": B_TEXT,
